@@ -230,7 +230,7 @@ Proof.
   destruct a.
   2: { (* AKill *)
     destruct (Hk eq_refl) as [Ha|[Ha Hb]]; subst;
-    cstep_cases HS; try (split; [split; [reflexivity|intro; congruence]|reflexivity]). Show. }
+    cstep_cases HS; (split; [split; [reflexivity|intro; first [congruence|auto]]|reflexivity]). }
   all: destruct ph; try (rewrite (Hp eq_refl) in * );
     cstep_cases HS;
     (split; [split; [reflexivity|intro; first [congruence|reflexivity|auto]]|reflexivity]).
